@@ -19,6 +19,7 @@ CONSTANTS MaxNodes,     \* bound on the number of nodes
           SetPool,      \* sequence of [t, v] scalars usable as set members
           Roots,        \* set of root kinds among {"map", "seq", "set", "s"}
           UseAnchors,   \* BOOLEAN
+          AnchorPool,   \* set of anchor names that may be defined (each at most once, on a scalar) and aliased
           MaxDepth      \* bound on container nesting
 
 VARIABLES doc, open, fresh
@@ -39,16 +40,18 @@ NextMembers(s) == LET ks == doc[s].kids IN
   IF Len(ks) = 0 THEN {SetPool[i] : i \in 1..Len(SetPool)}
   ELSE {SetPool[i] : i \in (MemberIdx(doc[ks[Len(ks)]]) + 1)..Len(SetPool)}
 
-AnchorDefined == \E i \in 1..Len(doc) : doc[i].anchor = "A" /\ doc[i].alias = 0
-AnchorNode == CHOOSE i \in 1..Len(doc) : doc[i].anchor = "A" /\ doc[i].alias = 0
+Defined(a) == \E i \in 1..Len(doc) : doc[i].anchor = a /\ doc[i].alias = 0
+DefNode(a) == CHOOSE i \in 1..Len(doc) : doc[i].anchor = a /\ doc[i].alias = 0
 
 \* candidate new nodes under the open container
 Scalars == {Node("s", ScalarPool[i].t, ScalarPool[i].v, 0) : i \in 1..Len(ScalarPool)}
-Anchored == IF UseAnchors /\ ~AnchorDefined
-            THEN {[Node("s", ScalarPool[i].t, ScalarPool[i].v, 0) EXCEPT !.anchor = "A"] : i \in {j \in 1..Len(ScalarPool) : ScalarPool[j].t # "null"}}
+Anchored == IF UseAnchors
+            THEN {[Node("s", ScalarPool[i].t, ScalarPool[i].v, 0) EXCEPT !.anchor = a] :
+                    i \in {j \in 1..Len(ScalarPool) : ScalarPool[j].t # "null"}, a \in {x \in AnchorPool : ~Defined(x)}}
             ELSE {}
-Aliases == IF UseAnchors /\ AnchorDefined
-           THEN {[doc[AnchorNode] EXCEPT !.alias = AnchorNode, !.kids = <<>>, !.keys = <<>>]} ELSE {}
+Aliases == IF UseAnchors
+           THEN {[doc[DefNode(a)] EXCEPT !.alias = DefNode(a), !.kids = <<>>, !.keys = <<>>] : a \in {x \in AnchorPool : Defined(x)}}
+           ELSE {}
 Containers == IF Len(open) < MaxDepth THEN {Node("map", "", "", 0), Node("seq", "", "", 0), Node("set", "", "", 0)} ELSE {}
 
 GInit ==
